@@ -698,8 +698,135 @@ fn replay_custom(s: &mut Session, v: &serde_json::Value) -> bool {
     }
 }
 
+const LONG_RULE: &str = "long utterances (bundled voice, 420..700 consecutive corpus labels, i.e. tens of seconds of speech and thousands of voiced frames in one GV system): the waveform of a reference call must be reproduced bit for bit by a repeat, by a clone, by calls made while earlier results and a half-consumed generator are alive, and by 4 concurrent threads (the harness's allocator places medium-sized buffers at offset 0 or 16 modulo 32 on request, so the alignment of the trajectories differs between these calls by construction). Non-trivial: every case; distinct by the label window";
+
+/// Determinism must not depend on where the allocator places the (large) buffers of a long utterance.
+fn long_utterances(s: &mut Session) {
+    // the waveform part is expensive (nine renderings of tens of seconds of speech): a few windows;
+    // the trajectory part is cheap: many windows
+    let nwave = s.tier.pick(1, 4);
+    let ncases = s.tier.pick(16, 80);
+    let engine = match crate::bundled::bundled_engine() {
+        Ok(e) => e.clone(),
+        Err(_) => return,
+    };
+    let corpus = crate::corpus::corpus();
+    for k in 0..ncases {
+        let h = crate::util::hash64(&(s.seed, "c03-long", k));
+        let n = 420 + (h % 281) as usize;
+        let start = ((h >> 16) as usize) % (corpus.lines.len() - n);
+        let lines: Vec<String> = corpus.lines[start..start + n].to_vec();
+        let run = |e: &Engine| -> Result<Vec<f64>, Failure> {
+            match catch(|| e.synthesize(lines.as_slice())) {
+                Ok(Ok(w)) => Ok(w),
+                Ok(Err(err)) => Err(Failure::new("synthesize-error", err.to_string())),
+                Err(p) => Err(Failure::new(p.signature(), p.msg)),
+            }
+        };
+        let r: Result<(), Failure> = (|| {
+            // parameter trajectories first (no vocoder in between to round a last-bit difference away)
+            {
+                let traj = |salt: bool| -> Result<crate::engine_util::Trajectories, Failure> {
+                    crate::alloc_count::set_alignment_salt(salt);
+                    let r = catch(|| engine.generator(lines.as_slice()).map(|g| crate::engine_util::trajectories(&g)));
+                    crate::alloc_count::set_alignment_salt(false);
+                    match r {
+                        Ok(Ok(t)) => Ok(t),
+                        Ok(Err(e)) => Err(Failure::new("generator", e.to_string())),
+                        Err(p) => Err(Failure::new(p.signature(), p.msg)),
+                    }
+                };
+                let t0 = traj(false)?;
+                let t1 = traj(true)?;
+                if let Some(d) = super::c01::traj_equal(&t0, &t1) {
+                    fail!("not-repeatable", "the parameter trajectories of a long utterance depend on where the allocator places its buffers (offset 0 vs 16 modulo 32): {}", d);
+                }
+            }
+            if k >= nwave {
+                return Ok(());
+            }
+            let reference = run(&engine)?;
+            // repeats with the heap shifted by small live allocations of odd sizes in between (the
+            // allocator's 16-byte granularity then places later buffers at another alignment)
+            let mut pads: Vec<Vec<u8>> = Vec::new();
+            for k in 0..3 {
+                pads.push(Vec::with_capacity(40 + 16 * k));
+                // the harness's allocator places medium-sized buffers at offset 0 (default) or 16
+                // modulo 32: the second and third repeat run with the other placement
+                crate::alloc_count::set_alignment_salt(k >= 1);
+                let again = run(&engine);
+                crate::alloc_count::set_alignment_salt(false);
+                let again = again?;
+                if let Some(i) = bits_equal(&again, &reference) {
+                    fail!("not-repeatable", "a repeated call on a long utterance differs at sample {} (repeat {}, buffers placed at offset {} modulo 32)", i, k, if k >= 1 { 16 } else { 0 });
+                }
+            }
+            // other live results of other sizes shift the heap
+            let _keep: Vec<Vec<f64>> = (0..3).map(|j| vec![0.0f64; 1000 + 4099 * j]).collect();
+            let half = engine.generator(&lines[..20.min(lines.len())]).ok().map(|mut g| {
+                let mut b = vec![0.0; g.fperiod()];
+                let _ = g.generate_step(&mut b);
+                g
+            });
+            let cl = engine.clone();
+            let wc = run(&cl)?;
+            if let Some(i) = bits_equal(&wc, &reference) {
+                fail!("clone-differs", "a clone renders a long utterance differently at sample {}", i);
+            }
+            drop(half);
+            let results: Vec<Result<Vec<f64>, Failure>> = std::thread::scope(|sc| {
+                let hs: Vec<_> = (0..4)
+                    .map(|j| {
+                        let e = &engine;
+                        let run = &run;
+                        sc.spawn(move || {
+                            let _pad = vec![0u8; 1 + 24 * j];
+                            crate::alloc_count::set_alignment_salt(j % 2 == 1);
+                            run(e)
+                        })
+                    })
+                    .collect();
+                hs.into_iter().map(|h| h.join().unwrap_or_else(|_| Err(Failure::new("thread-panic", "a synthesis thread panicked")))).collect()
+            });
+            for (j, w) in results.into_iter().enumerate() {
+                let w = w?;
+                if let Some(i) = bits_equal(&w, &reference) {
+                    fail!("concurrent-differs", "thread {} of 4 renders a long utterance differently from the sequential reference at sample {}", j, i);
+                }
+            }
+            Ok(())
+        })();
+        match r {
+            Ok(()) => {
+                let mut rep = Report::new();
+                rep.nontrivial = true;
+                rep.metric("labels", n as f64);
+                {
+                    // self-check of the allocator switch: a 64 KB buffer lands at offset 16 modulo 32
+                    crate::alloc_count::set_alignment_salt(true);
+                    let probe: Vec<f64> = Vec::with_capacity(8000);
+                    crate::alloc_count::set_alignment_salt(false);
+                    rep.metric("salted_buffer_offset_mod_32", (probe.as_ptr() as usize % 32) as f64);
+                }
+                if let Ok(g) = engine.generator(lines.as_slice()) {
+                    let tr = crate::engine_util::trajectories(&g);
+                    rep.metric("voiced_frames", tr.lf0.iter().filter(|f| f[0] != -1e10).count() as f64);
+                    rep.metric("frames", tr.lf0.len() as f64);
+                }
+                s.record("long-utterance", LONG_RULE, h, &rep, || json!({ "first_label": start, "labels": n }));
+            }
+            Err(f) => {
+                if s.failure("long-utterance", &f, json!({ "kind": "long-utterance", "first_label": start, "labels": n })) {
+                    return;
+                }
+            }
+        }
+    }
+}
+
 fn extra(s: &mut Session) {
     history_independence(s);
+    long_utterances(s);
     // compile-time probe: Engine: Send + Sync + Clone, SpeechGenerator: Send
     let dir = verif_dir().join("harness/probes/send_sync");
     let repo = crate::util::repo_dir();
